@@ -182,6 +182,8 @@ def check(run, prog, tier):
     run.rule("C02-M", "the rotating frame is undone at the times of the time axis: every phase factor of a conversion from or to "
                       "the frame takes its time from the axis' own points (which include its start)", minimum=3)
     rule_M(run, prog)
+    run.rule("C02-N", "every comparison of a pure-dephasing type with a string names one of the types the class knows", minimum=8)
+    rule_N(run, prog)
     run.rule("C02-L", "what the propagated state is measured with is Hermitian: the scalar product of state vectors conjugates its "
                       "first vector; the eigenvector matrix of a Hamiltonian is inverted by its Hermitian conjugate", minimum=5)
     rule_L(run, prog)
@@ -762,3 +764,34 @@ def rule_M(run, prog):
                                    % (f.short, norm(c)[:60]), loc=f.loc(c))
     if n < 3:
         raise AnalysisError("only %d phase factors found in the conversions from the rotating frame (3 confirmed)" % n)
+
+
+def rule_N(run, prog):
+    """'With and without pure dephasing': the kind of dephasing (Lorentzian: exp(-g t), Gaussian: exp(-(g t)^2)) selects the
+    propagation routine and the conversion between the two.  PureDephasing.dtypes lists the names.  A branch that compares
+    a dephasing type with any other string (a misspelling) is never taken: the conversion, or the Gaussian routine, is
+    silently skipped.  Every comparison of `<something>.dtype` / `dtype` with a string constant in the PureDephasing class,
+    the propagators and the evolution superoperator uses a member of that list."""
+    rid = "C02-N"
+    pd = prog.cls("quantarhei.qm.liouvillespace.puredephasing.PureDephasing")
+    try:
+        names = ast.literal_eval(pd.attrs["dtypes"])
+    except Exception:
+        raise AnalysisError("PureDephasing.dtypes is no longer a literal list")
+    n = 0
+    for mq in ("quantarhei.qm.liouvillespace.puredephasing", "quantarhei.qm.propagators.rdmpropagator",
+               "quantarhei.qm.liouvillespace.evolutionsuperoperator", "quantarhei.qm.propagators.svpropagator"):
+        mod = prog.module(mq)
+        for fn in [f for c in mod.classes.values() for f in c.methods.values()] + list(mod.functions.values()):
+            for cmp_ in [x for x in ast.walk(fn.node) if isinstance(x, ast.Compare) and len(x.ops) == 1 and isinstance(x.ops[0], (ast.Eq, ast.NotEq))]:
+                for a, b in ((cmp_.left, cmp_.comparators[0]), (cmp_.comparators[0], cmp_.left)):
+                    is_type = (isinstance(a, ast.Attribute) and a.attr == "dtype" and "data" not in norm(a.value).split(".")[-1:]) or \
+                        (isinstance(a, ast.Name) and a.id == "dtype" and mq.endswith("puredephasing"))
+                    if is_type and isinstance(b, ast.Constant) and isinstance(b.value, str):
+                        n += 1
+                        prog.consulted.add(fn.relpath)
+                        run.obligation(rid, fn.short, b.value in names, key="dephasing-type:%s:%s" % (norm(cmp_)[:40], b.value),
+                                       message="%s compares a dephasing type with %r, which is not one of %s: the branch is never taken"
+                                               % (fn.short, b.value, names), loc=fn.loc(cmp_), sample={"compare": norm(cmp_)})
+    if n < 8:
+        raise AnalysisError("only %d comparisons of a dephasing type with a string found (8 confirmed)" % n)
